@@ -404,3 +404,7 @@ def batch_oracles(merged, mode):
 # reach guard: a full-size batch in which one of these never fired means the workload or the
 # harness has rotted (exit 2, never a pass)
 REQUIRED_REACH = ['interleave', 'samples', 'density_matrix', 'snapshots:fixed', 'snapshots:global', 'snapshots:onsite', 'generator_abandoned', 'snapshot_of_mixed_base', 'snapshot_after_foreground_op:base_rotated', 'snapshot_after_foreground_op:circuit_extended']
+
+
+def warm_extra():
+    stateworld.warm_layouts()
